@@ -129,8 +129,8 @@ mut("C18", "mooney-ref-energy", E + "Models/HyperElastic/_laws.py", "           
 mut("C19", "flow-writes-zold", E + "Models/InElastic/_behavior.py", "        Ne, nPg = eps6_e_pg.shape[:2]\n        C6_e_pg = self._C_e_pg(Ne, nPg)\n        if self.__layout.n == 0:", "        Ne, nPg = eps6_e_pg.shape[:2]\n        zOld_e_pg[..., 0] *= 1.0\n        C6_e_pg = self._C_e_pg(Ne, nPg)\n        if self.__layout.n == 0:", "__Integrate_3d")
 mut("C19", "assembly-commits", E + "Simulations/_inelastic.py", "            self.__z[groupElem.elemType] = z_e_pg\n", "            self.__z[groupElem.elemType] = z_e_pg\n            self.__zOld[groupElem.elemType] = z_e_pg\n", "Construct_local_matrix_system")
 mut("C19", "save-no-copy", E + "Simulations/_inelastic.py", "        self.__zOld = {et: arr.copy() for et, arr in self.__z.items()}", "        self.__zOld = dict(self.__z)", "Save_Iter")
-mut("C20", "energy-all-rows", E + "Simulations/_simu.py", "        return Reduce_sum(0.5 * x[dofs] @ (A[dofs] @ x))", "        return Reduce_sum(0.5 * x @ (A @ x))", "Calc_Energy")
-mut("C20", "reaction-rows", E + "Simulations/_simu.py", "            reaction[dofs] += M[dofs] @ self._Get_a_n(problemType)", "            reaction += M @ self._Get_a_n(problemType)", "Calc_Reaction")
+mut("C20", "energy-all-rows", E + "Simulations/_simu.py", "        return Reduce_sum(0.5 * x[dofs] @ (A[dofs][:, : x.size] @ x))", "        return Reduce_sum(0.5 * x @ (A[:, : x.size] @ x))", "Calc_Energy")
+mut("C20", "reaction-rows", E + "Simulations/_simu.py", "            reaction[dofs] += M[dofs][:, :Ndof] @ self._Get_a_n(problemType)", "            reaction += M[:, :Ndof] @ self._Get_a_n(problemType)", "Calc_Reaction")
 mut("C20", "partition-unsorted", E + "FEM/_group_elem.py", "        elements = np.sort(np.asarray(elements, dtype=int))", "        elements = np.asarray(elements, dtype=int)", None)
 mut("C20", "ghost-any-axis", E + "FEM/_mesher.py", "mask = np.isin(other_connect, owned_arr).any(axis=1)", "mask = np.isin(other_connect, owned_arr).all(axis=1)", "__Get_partitioned_groupElems")
 
@@ -189,7 +189,7 @@ mut("C11", "param-set-early-return", E + "Utilities/_params.py", "        instan
 mut("C14", "staggered-keep-damage-memo", E + "Simulations/_phasefield.py", "            u_np1 = self.__Solve_elastic()\n            # new displacement -> new damage matrices\n            self.__updatedDamage = False", "            u_np1 = self.__Solve_elastic()\n            # new displacement -> new damage matrices", "PhaseField.Solve")
 mut("C15", "save-records-last-mesh", E + "Simulations/_simu.py", '        iter["indexMesh"] = self.__indexMesh\n', '        iter["indexMesh"] = self.__NindexMesh\n', "Set_Iter")
 mut("C16", "field-e-sum", E + "Models/_utils.py", "                    field_e_pg(groupElem), result, coef\n                ).mean(1)", "                    field_e_pg(groupElem), result, coef\n                ).sum(1)", "Result_strain_or_stress_field_e")
-mut("C16", "reaction-parabolic-as-newmark", E + "Simulations/_simu.py", "        if self.algo == AlgoType.parabolic:\n            reaction[dofs] += C[dofs] @ self._Get_v_n(problemType)", "        if self.algo == AlgoType.newmark:\n            reaction[dofs] += C[dofs] @ self._Get_v_n(problemType)", "Calc_Reaction")
+mut("C16", "reaction-parabolic-as-newmark", E + "Simulations/_simu.py", "        if self.algo == AlgoType.parabolic:\n            reaction[dofs] += C[dofs][:, :Ndof] @ self._Get_v_n(problemType)", "        if self.algo == AlgoType.newmark:\n            reaction[dofs] += C[dofs][:, :Ndof] @ self._Get_v_n(problemType)", "Calc_Reaction")
 mut("C18", "path-tangent-weight", E + "FEM/Operators/NonLinear.py", "                d2Wde_quad += (w * s / coefK) * material.Compute_d2Wde(state)", "                d2Wde_quad += (w / coefK) * material.Compute_d2Wde(state)", "TimeQuadratureStressTensor")
 mut("C19", "condense-sign", E + "Models/InElastic/_behavior.py", "        return C_in - TensorProd(c_iz, c_zi) / c_zz", "        return C_in + TensorProd(c_iz, c_zi) / c_zz", "__Condense")
 mut("C19", "jacobian-dR-at-old-state", E + "Models/InElastic/_behavior.py", "            dG_e_pg = u_e_pg[..., nz, None, None]\n            alpha_e_pg = z_e_pg[..., A][..., 0]", "            dG_e_pg = u_e_pg[..., nz, None, None]\n            alpha_e_pg = zOld_e_pg[..., A][..., 0]", "__Jacobian")
@@ -453,10 +453,10 @@ same("C20", "r6-rows-sorted-set", E + "FEM/_mesher.py", "            all_idx = n
 same("C20", "r6-merge-offsets-cumsum-minus", E + "FEM/_mesh.py", "        offsets = np.concatenate(([0], np.cumsum(sizes[:-1])))\n", "        offsets = np.cumsum(sizes) - sizes\n")
 same("C20", "r6-merge-mapping-loop", E + "FEM/_mesh.py", "            mapping = [old_to_new[off : off + s] for off, s in zip(offsets, sizes)]\n", "            mapping = []\n            for k in range(len(list_mesh)):\n                mapping.append(old_to_new[offsets[k] : offsets[k] + sizes[k]])\n")
 
-same("C20", "r6-energy-local-names", E + "Simulations/_simu.py", "        return Reduce_sum(0.5 * x[dofs] @ (A[dofs] @ x))\n", "        x_d = x[dofs]\n        Ax_d = A[dofs] @ x\n        energy = 0.5 * (x_d @ Ax_d)\n        return Reduce_sum(energy)\n")
+same("C20", "r6-energy-local-names", E + "Simulations/_simu.py", "        return Reduce_sum(0.5 * x[dofs] @ (A[dofs][:, : x.size] @ x))\n", "        x_d = x[dofs]\n        Ax_d = A[dofs][:, : x.size] @ x\n        energy = 0.5 * (x_d @ Ax_d)\n        return Reduce_sum(energy)\n")
 same("C20", "r6-owned-nodes-unpack", E + "FEM/_mesh.py", "            return list_groupElem[0]._Get_partitioned_data()[3]\n", "            _, _, _, nodes, _ = list_groupElem[0]._Get_partitioned_data()\n            return nodes\n")
-mut("C20", "r6-energy-all-rows-of-x", E + "Simulations/_simu.py", "        return Reduce_sum(0.5 * x[dofs] @ (A[dofs] @ x))\n", "        return Reduce_sum(0.5 * x @ (A @ x))\n", "Calc_Energy")
-mut("C20", "r6-reaction-mass-missing", E + "Simulations/_simu.py", "            reaction[dofs] += M[dofs] @ self._Get_a_n(problemType)\n", "            reaction[dofs] += M[dofs] @ self._Get_v_n(problemType)\n", "Calc_Reaction")
+mut("C20", "r6-energy-all-rows-of-x", E + "Simulations/_simu.py", "        return Reduce_sum(0.5 * x[dofs] @ (A[dofs][:, : x.size] @ x))\n", "        return Reduce_sum(0.5 * x @ (A[:, : x.size] @ x))\n", "Calc_Energy")
+mut("C20", "r6-reaction-mass-missing", E + "Simulations/_simu.py", "            reaction[dofs] += M[dofs][:, :Ndof] @ self._Get_a_n(problemType)\n", "            reaction[dofs] += M[dofs][:, :Ndof] @ self._Get_v_n(problemType)\n", "Calc_Reaction")
 mut("C20", "r6-owned-nodes-ghost-slot", E + "FEM/_mesh.py", "            return list_groupElem[0]._Get_partitioned_data()[3]\n", "            return list_groupElem[0]._Get_partitioned_data()[4]\n", "_Get_mpi_owned_nodes")
 
 mut("C16", "r6-energy-default-mass-scheme", E + "Simulations/_elastic.py", "        smoothedStress=False,\n        matrixType=MatrixType.rigi,\n    ):", "        smoothedStress=False,\n        matrixType=MatrixType.mass,\n    ):", "_Calc_Psi_Elas")
